@@ -199,8 +199,10 @@ PROPS = {
             {"name": "rpc-replies", "component": "rpc", "cases": {"quick": 60, "thorough": 600}},
             # the built binary: connections ending in every way, a full node registering over plain HTTP, requests after it
             {"name": "poolbin-ws", "component": "poolbin", "cases": {"quick": 12, "thorough": 120}},
+            # peer ids and URIs of every odd form (what a pool may send an agent) through the node wrappers of all three kinds
+            {"name": "eth-rpc", "component": "ethrpc", "cases": {"quick": 15, "thorough": 200}},
         ] + pool_streams(40, 400, gen="pool-nonce", prefix="badsig"),
-        "monitor": monitors.c15_binary,
+        "monitor": monitors.c15_all,
     },
     "C16": {
         "level_text": "exposed_exactly (a server exposes exactly prefix+lowerFirst(method) for the receiver's exported methods, restricted to the allow-list), unknown_not_found, bad_params_not_run, runs_only_if_well_typed, too_many/too_few/wrong_type_invalid are Lean theorems about the registry and positional-argument model; production_surface re-proves by `decide`, on every run, that the names the *built pool binary* answers (probed over HTTP with every candidate name derived by reflection from the objects behind its services) are exactly the documented API. The model is compared with jsonrpc2.Server on instrumented receivers (invocation counters) and with the running binary over HTTP and WebSocket.",
